@@ -486,6 +486,11 @@ def build(p):
   v_mime_grads(p)
   v_domain(p)
   v_server_normalisation(p)
+  # "with the regularizer contributing exactly once": in every algorithm builder the loss / gradient constructors that take a
+  # regularizer receive the builder's option (dropped on one path it would contribute zero times there)
+  from . import C12
+  p.native('hyp_cluster.', D, 'hyp_assign')
+  C12.v_regularizer_sites(p)
   p.trust('rows model: a vector over the batch rows is its entry at an arbitrary row; jnp.sum / vdot / mean / segment_sum '
           'are SUMROWS of the pointwise expression; x * mask = mask ? x : 0 (mask is 0/1)',
           'per-example loss is an uninterpreted function of (params, batch, key, row): the property hypothesis',
